@@ -8,3 +8,5 @@ CHECKS = [build_check("C17", SPECS[k], clauses=("rejects", "post")) for k in
 TRUSTED = ["torch.linalg.pinv / eigh / nan_to_num obey their documentation (Moore-Penrose inverse; M = V diag(l) V^T with "
            "orthonormal V and ascending l)",
            "bridge lemmas imtlg_equal_proj, config_equal_cos, amtl_orthogonal (Lean) hold for full row rank"]
+
+VALIDATE_ALGEBRAIC_PRIMS = True  # [V] the algebraic primitive contracts are sampled against real torch on every run
